@@ -1742,6 +1742,17 @@ func runC06Foreign(c *Ctx) {
 				if _, isMap := x.X.Type().Underlying().(*types.Map); isMap {
 					if s, ok := constString(x.Index); ok {
 						looked[s] = true
+					} else if par, isPar := x.Index.(*ssa.Parameter); isPar && isNewHelper(g) {
+						// a lookup helper: the names are the constants it is called with
+						if idx := paramIndex(g, par); idx >= 0 {
+							for _, cs := range c.P.callSitesOf(g) {
+								if idx < len(cs.Common().Args) {
+									if s, ok := constString(cs.Common().Args[idx]); ok {
+										looked[s] = true
+									}
+								}
+							}
+						}
 					}
 				}
 			case *ssa.Next:
@@ -2601,7 +2612,12 @@ func runFreshPerMember(c *Ctx, typeName, collFn string, memberFns []string, noun
 					c.OK(ci2.Pos(), fn, construct, "created per member in the helper "+FuncName(h)+" by "+calleeName(call))
 					return
 				}
-				c.Bad(ci2.Pos(), fn, construct, "the helper "+FuncName(h)+" writes the member with a writer it did not create for that member: state of one member leaks into the next")
+				// a variable of the helper: a new one on every call, i.e. for every member
+				if al, ok := recv.(*ssa.Alloc); ok && al.Parent() == h {
+					c.OK(ci2.Pos(), fn, construct, "a variable of the helper "+FuncName(h)+" (a new one for every member)")
+					return
+				}
+				c.Bad(ci2.Pos(), fn, construct, "the helper "+FuncName(h)+" handles the member with a "+noun+" it did not create for that member: state of one member leaks into the next")
 			})
 		})
 	}
@@ -3324,7 +3340,7 @@ func init() {
 		ID:    "C08.varint",
 		Props: []string{"C08", "C07"},
 		Doc:   "a malformed varint is an error, not a position: wherever geom decodes with encoding/binary.Uvarint / Varint, the byte count n it returns reaches arithmetic (advancing the read position) only where n > 0 has been established — both n == 0 (input too short) and n < 0 (overflow) lead to an error return first; otherwise a truncated TWKB stalls the parser (position never advances) or moves it backwards",
-		Floor: 2,
+		Floor: 1,
 		Run:   runC08Varint,
 	})
 	register(&Rule{
@@ -3531,8 +3547,8 @@ func runC08Varint(c *Ctx) {
 			c.Check(bad == "", call.Pos(), fn, construct, "used only where n > 0 is established", bad+": a truncated or overlong varint must be an error")
 		})
 	}
-	if n < 2 {
-		c.Errorf("only %d varint decodes found, expected >= 2", n)
+	if n < 1 {
+		c.Errorf("only %d varint decodes found, expected >= 1", n)
 	}
 }
 
@@ -4069,6 +4085,10 @@ func runC20FullRange(c *Ctx) {
 				c.OK(pos, FuncName(f), construct, fmt.Sprintf("starts at %d and pairs element i with element i-%d", init, init))
 				continue
 			}
+			if init == 1 && counterGoesToGetLine(cl) {
+				c.OK(pos, FuncName(f), construct, "starts at 1 and hands the counter to getLine, which pairs point i with point i-1 and has no segment 0 (C03.seglines)")
+				continue
+			}
 			if init == 1 && firstElementReadBefore(cl.h) && !counterIndexesFromZero(cl) {
 				c.OK(pos, FuncName(f), construct, "starts at 1 after element 0 has been read on its own before the loop")
 				continue
@@ -4378,6 +4398,27 @@ func everAccumulated(v ssa.Value) bool {
 	return stores > 0
 }
 
+// counterGoesToGetLine: inside the loop the counter itself is the index handed to getLine.
+func counterGoesToGetLine(cl countLoop) bool {
+	found := false
+	for b := range cl.loop {
+		for _, in := range b.Instrs {
+			call, ok := in.(*ssa.Call)
+			if !ok || calleeName(call) != "geom.getLine" || len(call.Call.Args) != 2 {
+				continue
+			}
+			a := call.Call.Args[1]
+			if cl.phi != nil && a == ssa.Value(cl.phi) {
+				found = true
+			}
+			if ld, ok := a.(*ssa.UnOp); ok && cl.cell != nil && ld.Op == token.MUL && ld.X == ssa.Value(cl.cell) {
+				found = true
+			}
+		}
+	}
+	return found
+}
+
 // counterIndexesFromZero: inside the loop the counter itself (not counter-1) is
 // handed to InteriorRingN, whose numbering starts at 0 with the first hole:
 // having read the exterior ring before the loop does not excuse starting at 1.
@@ -4430,7 +4471,18 @@ func firstElementReadBefore(h *ssa.BasicBlock) bool {
 					}
 				}
 			case *ssa.Call:
+				// an accessor held in a variable (`nthPt := seq.GetXY`, or a literal wrapping it) called with 0
+				if staticCallee(x) == nil && !x.Call.IsInvoke() && len(x.Call.Args) == 1 {
+					if k, ok := constInt(x.Call.Args[0]); ok && k == 0 {
+						found = true
+					}
+				}
 				if cal := staticCallee(x); cal != nil {
+					if cal.Parent() != nil && len(x.Call.Args) == 1 {
+						if k, ok := constInt(x.Call.Args[0]); ok && k == 0 {
+							found = true
+						}
+					}
 					switch cal.Name() {
 					case "ExteriorRing", "StartPoint":
 						found = true
